@@ -80,13 +80,17 @@ CHECKS["C03"] = ("model_checking",
     "Bounded: holes of <= 2 (quick) / 3 (thorough) layout bytes, comment bodies of 2 bytes, escapes of length 1,3 (5,9 thorough), class bodies <= 3 / 4 printable ASCII bytes, identifiers <= 2 / 3 ASCII chars; only 'valid text => accepted with the denoted AST' is asserted (nothing about invalid text). Expected ASTs come from the catalogue printer.",
     TECH + "symbolic holes in grammar skeletons through the real front end; concrete round trip", "§3 C03")
 
+CHECKS["C20"] = ("translation_validation",
+    "(a) the hand-written bootstrap front end and the generated pigeon front end are executed on the same symbolic text (catalogue texts of the bootstrap subset; symbolic layout, escape, class-body and operator holes): on every path where the bootstrap accepts, pigeon accepts and the two ASTs are structurally equal (positions and display-name quoting aside). (b) every generated artifact with a Makefile rule is regenerated with tools built from the current tree and byte-compared; pigeon -nolint grammar/pigeon.peg must equal pigeon.go (fixpoint).",
+    "(b) is a concrete regeneration diff with no symbolic variable - not a solver verdict, labelled as such; it is also the precondition of every other check (the engine executes what generated_static_code.go says). (a) bounded as C03's holes.",
+    TECH + "relational, two real front ends; plus a concrete regeneration diff", "§3 C20")
+
 NOT_BUILT = {
 }
 
 NA = {
     "C04": "not built yet",
     "C18": "not built yet",
-    "C20": "not built yet",
 }
 
 
